@@ -123,10 +123,11 @@ From Bardolph Require Import Lang.Builtins Lang.CallFrames Lang.Simulation3 Lang
 
 Theorem C01_program_with_routines_runs_as_its_source_says :
   forall (p : script) (w : world) (fuel : nat) (evs : list event),
-    top_ok (fst (collect p [] [])) (snd (collect p [] [])) p ->
+    Forall (top_stmt_ok (fst (collect p [] [])) (snd (collect p [] []))) p ->     (* each top-level statement: a routine definition with a covered body, or a covered statement *)
+    NoDup (map fst (defs_of p)) ->                                                (* no routine defined twice *)
     run_src fuel p w = SFinished evs ->
     exists k, run_program k (compile p) w = Finished evs.
-Proof. exact program_with_routines_runs_as_its_source_says. Qed.
+Proof. exact covered_program_runs_as_its_source_says. Qed.
 Print Assumptions C01_program_with_routines_runs_as_its_source_says.
 
 (* statement by statement, anywhere in an image whose routine table holds the compiled routine bodies, at any distance [after]
@@ -159,8 +160,11 @@ Example C01_program_nonvacuous :
             SCall "blink" [RLit (LInt 2); RLit (LInt 5)] false;
             SPrintln (Some (RVar "total"))] in
   let w := [mkLight "a" "g" "l" KPlain [0; 0; 0; 0]] in
-  top_ok (fst (collect p [] [])) (snd (collect p [] [])) p /\ exists evs, run_src 400 p w = SFinished evs /\ (12 <= length evs)%nat.
+  Forall (top_stmt_ok (fst (collect p [] [])) (snd (collect p [] []))) p /\ NoDup (map fst (defs_of p)) /\
+  exists evs, run_src 400 p w = SFinished evs /\ (12 <= length evs)%nat.
 Proof.
-  split; [apply (top_ok_check _ _ 12); vm_compute; reflexivity|].
+  intros p w.
+  assert (H : top_ok (fst (collect p [] [])) (snd (collect p [] [])) p) by (apply (top_ok_check _ _ 12); vm_compute; reflexivity).
+  destruct H as (H1 & H2 & _). split; [exact H1|]. split; [exact H2|].
   eexists. split; [vm_compute; reflexivity|]. cbn. repeat constructor.
 Qed.
